@@ -127,6 +127,10 @@ def run(F, res, tier):
     c06.search_scope_rules(F, res)
     c06.search_rejections_are_reviewed(F, res, rule="N11")
     c06.search_scope_narrowings_are_reviewed(F, res, rule="N12")
+    from rules import c10 as _c10n
+    _c10n.declared_everywhere(F, res, rule="N15")   # what a name resolves to must not depend on how functions are spelled (group order = declaration order)
+    from rules import c01 as _c01n
+    _c01n.leaves_start_with_their_token(F, res, rule="N1")   # token-exact names: a NAME node is its identifier token and nothing else
     from rules import c05 as _c05n
     _c05n.lowering_takes_every_child_of_a_list(F, res, rule="N14")   # a binder that is never lowered cannot be renamed
     from rules import c08 as _c08
